@@ -184,6 +184,20 @@ Example C04_esir_checker_rejects :
   wf_trajb g3 (1#2) (Some (3#2)) [(1#2, [2;1;0]%Z); (3#2, [1;2;0]%Z)] = false.
 Proof. vm_compute. repeat split. Qed.
 
+(* why [esir_okb2] asks for duplicate-free initial collections on top of C11's [esir_okb]: the
+   code cuts len(initial_infecteds) rows although a node listed twice is infected once (and
+   computes the first row from len(initial_recovereds)); with node 0 listed twice the returned
+   arrays start after tmin and the checker rejects them.  A caller's error, outside the
+   property's domain. *)
+Example C04_esir_domain_distinct_initial_nodes_needed :
+  esir_okb g3 d3 r3 [0%N; 0%N] [] (1#2) None = true /\ esir_okb2 g3 d3 r3 [0%N; 0%N] [] (1#2) None = false /\
+  match esir_det fifo g3 d3 r3 [0%N; 0%N] [] (1#2) None false (esir_fuel g3 [0%N; 0%N]) with
+  | Ok (o, _) => map (fun r => Qred (fst r)) (firstn 1 (so_rows o)) = [3#2] /\ wf_trajb g3 (1#2) None (so_rows o) = false
+  | Err _ => False
+  end.
+Proof. vm_compute. repeat split. Qed.
+
+Print Assumptions C04_esir_domain_distinct_initial_nodes_needed.
 Print Assumptions C04_esir_checker_rejects.
 Print Assumptions C04_esir_rows_well_formed.
 Print Assumptions C04_esir_first_row_as_requested.
